@@ -1709,6 +1709,7 @@ fc_statements = [
         mixin=[
             "c_mixin_cfi_character_arg",
         ],
+        c_helper="ShroudStrAlloc ShroudStrFree",
         # Null terminate string.
         pre_call=[
             "char *{c_var} = "
@@ -1853,7 +1854,7 @@ fc_statements = [
         mixin=[
             "c_mixin_cfi_character_arg",
         ],
-        c_helper="ShroudStrCopy",
+        c_helper="ShroudStrCopy ShroudLenTrim",
         cxx_local_var="scalar",
         pre_call=[
             "char *{c_var} = "
